@@ -163,6 +163,10 @@ class wind(PseudoNetCDFFile):
                 self.time_step_count = 1
                 return
 
+        if nlayers < 3:
+            # data records as long as the time header (e.g., 3 cells)
+            raise ValueError('Cannot tell data records from time headers; ' +
+                             'use the memory-mapped wind reader')
         self.nlayers = (nlayers - 1) // 2
 
         if self.time_hdr_fmt == "fi":
